@@ -429,3 +429,19 @@ EXTRA4 = {
 }
 for _p, _t in EXTRA4.items():
   CLAIMS[_p]['text'] = CLAIMS[_p]['text'].rstrip() + ' ' + _t
+
+# Members added after the fifth round of seeded changes.
+EXTRA5 = {
+    'C13': 'An eleventh hand-assembled diff refers to parts of new shared values (a child of a shared Config, an element '
+           'of a shared list) from changes and from another shared value.',
+    'C14': 'A further obligation checks auto_config.with_tags in six call forms (one tag, several tags, a collection, a '
+           'collection followed by further tags, two tagged arguments) against the tag sets it is given, the direct call '
+           'and set_tagged; another applies a diff that changes a node\'s callable and tags a parameter that only the new '
+           'callable has.',
+    'C15': 'In the tag-iteration obligation every tagged argument may also carry the base tag T0, so that two of its tags '
+           'match the query and it must still be yielded once.',
+    'C19': 'The shared-state inventory also lists class attributes stored from inside functions (type(self).x = ..., '
+           'cls.x = ...); an unclassified entry makes the run inconclusive.',
+}
+for _p, _t in EXTRA5.items():
+  CLAIMS[_p]['text'] = CLAIMS[_p]['text'].rstrip() + ' ' + _t
